@@ -16,7 +16,7 @@ if [ $# -eq 0 ]; then
       serf/query.go) props="$props C07 C08 C09 C33 C35";;
       serf/snapshot.go) props="$props C09 C10 C11 C12 C13 C14";;
       serf/coalesce*.go) props="$props C09 C16 C17 C18";;
-      serf/lamport.go) props="$props C06 C19";;
+      serf/lamport.go) props="$props C02 C03 C06 C19";;
       serf/event.go) props="$props C07 C09 C33";;
       serf/delegate.go|serf/messages.go|serf/merge_delegate.go|serf/event_delegate.go) props="$props C04 C05 C08 C09 C14 C32";;
       serf/ping_delegate.go) props="$props C09 C20";;
